@@ -97,3 +97,16 @@ Theorem C05_multi_column_key_pinned_refuted :
   K_pinned kT kspec r1 = K_pinned kT kspec r2 /\ K kT kspec r1 <> K kT kspec r2.
 Proof. exact K_pinned_refuted. Qed.
 Print Assumptions C05_multi_column_key_pinned_refuted.
+
+(** what the hypothesis "unique rows" of the batch theorem excludes is reachable
+    in a client cache: a schema index over a column the client does not monitor
+    (every cached row holds the default value; Populate creates rows without
+    the duplicate check).  The single-valued schema entry then holds the last
+    row only while a scan finds both (recorded finding C05 class 31, shown on
+    the code by a scenario test of C05) *)
+Theorem C05_schema_index_over_projected_column_refuted :
+  exists c, two_projected = COk c /\
+    (match rc_idx c with m :: _ => i_get m (K kT pspec (krow None None)) | [] => ∅ end) = {[11%N]} /\
+    scan kT pspec (rc_rows c) (K kT pspec (krow None None)) = {[10%N; 11%N]}.
+Proof. exact schema_index_projected_refuted. Qed.
+Print Assumptions C05_schema_index_over_projected_column_refuted.
